@@ -28,9 +28,10 @@ class SubstanceGet(Harness):
     _concrete = None
     QUERIES = ['p1', 'out1', 'in1', 'p2', 'out2', 'in2', 'nope']
 
-    def __init__(self, scaled):
+    def __init__(self, scaled, op='mul'):
         self.scaled = scaled
-        self.name = 'substance.get' + ('.scaled' if scaled else '')
+        self.op = op
+        self.name = 'substance.get' + (('.scaled' if op == 'mul' else '.divided') if scaled else '')
         self.entry_name = 'Substance::get' + (' ; <&Substance as Mul<&Number>>::mul ; Substance::get' if scaled else '')
         self.describe = ('property lookup on an arbitrary amount of a substance with two properties (arbitrary non-zero input/output '
                          'Numbers, symbolic units)' + ('; then the same lookup on the substance multiplied by an arbitrary dimensionless k' if scaled else ''))
@@ -62,8 +63,14 @@ class SubstanceGet(Harness):
         r1 = ex.call(None, 'runtime::substance::Substance::get', [ref(s), q])
         if not self.scaled:
             return r1
-        kn = number(rational(ctx['k']), dim({}))
-        s2 = ex.call(None, '<&runtime::substance::Substance as std::ops::Mul<&types::number::Number>>::mul', [ref(s), ref(kn)])
+        if self.op == 'div':
+            # dividing by 1/k is scaling by k
+            ex.assume(ctx['k'] != 0)
+            kn = number(rational(1 / zreal(ctx['k'])), dim({}))
+            s2 = ex.call(None, '<&runtime::substance::Substance as std::ops::Div<&types::number::Number>>::div', [ref(s), ref(kn)])
+        else:
+            kn = number(rational(ctx['k']), dim({}))
+            s2 = ex.call(None, '<&runtime::substance::Substance as std::ops::Mul<&types::number::Number>>::mul', [ref(s), ref(kn)])
         s2v = deref_all(s2)
         if s2v.variant != 0:
             return Tup([r1, s2, none(ex)])
@@ -183,7 +190,11 @@ class SubstanceGet(Harness):
         req = {'mode': 'substance_get', 'amount': num('a', 'da'), 'props': props, 'q': inputs['q']}
         if self.scaled:
             k = Fraction(inputs.get('k', 1))
-            req['k'] = '%d/%d' % (k.numerator, k.denominator)
+            if self.op == 'div':
+                kd = 1 / k
+                req['kdiv'] = '%d/%d' % (kd.numerator, kd.denominator)
+            else:
+                req['k'] = '%d/%d' % (k.numerator, k.denominator)
         return [req]
 
     def judge(self, inputs, label, obs):
@@ -388,7 +399,7 @@ class FormulaSum(Harness):
 
 
 def harnesses(tier):
-    hs = [SubstanceGet(False), SubstanceGet(True), Formula(11), FormulaSum(['H', 'H'], 10), FormulaSum(['H', 'O', 'H'], 3 if tier == 'quick' else 10)]
+    hs = [SubstanceGet(False), SubstanceGet(True), SubstanceGet(True, op='div'), Formula(11), FormulaSum(['H', 'H'], 10), FormulaSum(['H', 'O', 'H'], 3 if tier == 'quick' else 10)]
     if tier == 'thorough':
         hs += [FormulaSum(['H', 'O', 'H', 'O'], 10), FormulaSum(['O', 'H', 'O', 'H', 'O', 'H'], 4)]
     return hs
